@@ -223,6 +223,21 @@ theorem deleteSess_nodeSet (st : State) (h : Nat) (x z : Seid) (env : Env) (c : 
       obtain ⟨s', c', rs⟩ := R
       exact key _ rfl
 
+/-- Session Deletion Request for a live session recorded with its node: afterwards the SEID resolves to nothing (any later
+    request for it is answered "session context not found") -/
+theorem del_unresolves (st : State) (wf : C04.TableWF st.lnode) (addr : String) (seq : BitVec 24) (x : Seid)
+    (env : Env) (c : Ctx) (s0 : Sess) (h : st.lnode.lookup x = some s0)
+    (hm : x ∈ (st.nodes.getD s0.rnode default).sess) :
+    (handleDel st addr seq x env c).1.lnode.lookup x = none := by
+  unfold handleDel
+  simp only [h]
+  have hd := deleteSess_sweeps st wf s0.rnode x env c hm
+  generalize st.deleteSess s0.rnode x env c = R at hd
+  obtain ⟨st1, c1, s1, rs⟩ := R
+  simp only [] at hd ⊢
+  rw [(sendRsp_spec st1 addr _ c1).2.1]
+  exact hd
+
 /-- **re-association sweeps the node's sessions**: after `RemoteNode.Reset`, every SEID that was in the node's set resolves
     to nothing — whatever order the sessions are closed in and whatever the data plane answers; together with `reset_frame`
     (no other SEID is touched) this is the re-association clause of C04 / C05 -/
